@@ -2042,7 +2042,17 @@ def _memcpy(E, args, node):
     return dst
 
 
+def _noreturn(name):
+    """panic / abort style functions: reaching the call is the failure (obligation `False` under the path condition), nothing runs after it"""
+    def model(E, args, node):
+        E.notes.add("%s() never returns: every call site carries the obligation that it is unreachable" % name)
+        E.require("ub", "call.%s_unreachable" % name, False, node)
+        raise PathCut()
+    return model
+
+
 BUILTIN_MODELS = {
+    "osmo_panic": _noreturn("osmo_panic"), "abort": _noreturn("abort"), "__assert_fail": _noreturn("__assert_fail"),
     "puts": _noeffect("int"), "printf": _noeffect("int"), "putchar": _noeffect("int"),
     "memcpy": _memcpy,
 }
